@@ -66,6 +66,7 @@ fn cfg_strategy() -> BoxedStrategy<Cfg> {
             auth,
             jitter_us: 0,
             ping_delays_us: vec![],
+            unconditional_limits: false,
         })
         .boxed()
 }
